@@ -39,8 +39,12 @@ HORIZ = {"ox", "ew", "ps", "pe"}
 BASE = {"ox": ("10", "%"), "oy": ("20", "%"), "ew": ("30", "%"), "eh": ("40", "%"), "pb": ("1", "%"), "pa": ("2", "%"), "ps": ("3", "%"), "pe": ("4", "%")}
 
 
+VALUES_T = VALUES + ["0.01", "12.345", "99.99", "720", "1080", "3840"]
+VIDEO_T = VIDEO + [(720, 576), (3840, 2160), (1, 1080), (1920, 1)]
+
+
 def bounds(tier):
-    return {"units": UNITS, "values": VALUES, "video": VIDEO, "axes": AXES}
+    return {"units": UNITS, "values": VALUES if tier == "quick" else VALUES_T, "video": VIDEO if tier == "quick" else VIDEO_T, "axes": AXES}
 
 
 def exact_pct(value, unit, axis, vw, vh):
@@ -302,11 +306,14 @@ def eval_fit(x, y, wrel, hrel, level):
 def shards(tier, seed):
     sh = []
     for a in AXES:
-        sh.append({"k": "dfxp1", "axis": a})
+        sh.append({"k": "dfxp1", "axis": a, "tier": tier})
+    if tier == "thorough":
+        for part in range(2, 10):
+            sh.append({"k": "dfxp2", "part": part, "tier": tier})
     sh.append({"k": "dfxp2", "part": 0})
     sh.append({"k": "dfxp2", "part": 1})
-    sh.append({"k": "sami"})
-    sh.append({"k": "vtt"})
+    sh.append({"k": "sami", "tier": tier})
+    sh.append({"k": "vtt", "tier": tier})
     sh.append({"k": "fit", "level": "caption"})
     sh.append({"k": "fit", "level": "node"})
     return sh
@@ -321,6 +328,8 @@ def spec_with(**kw):
 def run_shard(d):
     acc = Acc()
     k = d["k"]
+    VALUES = bounds(d.get("tier", "quick"))["values"]  # noqa: N806
+    VIDEO = bounds(d.get("tier", "quick"))["video"]  # noqa: N806
     if k == "dfxp1":
         a = d["axis"]
         for unit in UNITS:
@@ -340,9 +349,15 @@ def run_shard(d):
         for a, b in itertools.combinations(AXES, 2):
             for ua, ub in itertools.product(UNITS[:4], repeat=2):
                 n += 1
-                if n % 2 != d["part"]:
-                    continue
-                spec = spec_with(**{a: ("7", ua), b: ("16", ub)})
+                if d["part"] < 2:
+                    if n % 2 != d["part"]:
+                        continue
+                    va, vb = "7", "16"
+                else:
+                    if n % 8 != d["part"] - 2:
+                        continue
+                    va, vb = "33.333", "0.5"
+                spec = spec_with(**{a: (va, ua), b: (vb, ub)})
                 for video in VIDEO:
                     v, out = eval_dfxp(spec, video, False, "caption")
                     acc.case(("dfxp2", a, b, ua, ub, video), True, out, {"writer": "DFXPWriter", "axes": [a, b], "units": [ua, ub], "video": video})
